@@ -3,6 +3,7 @@ package main
 import (
 	"fmt"
 	"os"
+	"os/exec"
 	"path/filepath"
 	"strings"
 	"syscall"
@@ -145,4 +146,77 @@ func replayFault(root string, fc *faultCase) []kit.V {
 		return nil
 	}
 	return []kit.V{{Key: faultKey(v, *fc), What: v, Case: kase{Kind: "fault", Fault: fc}}}
+}
+
+// ---------- many entries, few descriptors ----------
+
+// manyEntries: an archive (a tree) of n files extracted while the process may
+// hold only a few dozen descriptors: every entry must arrive. Write needs one
+// descriptor at a time.
+func manyEntries(root string, n int) string {
+	dir := filepath.Join(root, "many")
+	os.RemoveAll(dir)
+	if err := os.MkdirAll(dir, 0o777); err != nil {
+		kit.Harness("mkdir: %v", err)
+	}
+	defer os.RemoveAll(dir)
+	a := new(txtar.Archive)
+	for i := 0; i < n; i++ {
+		a.Files = append(a.Files, txtar.File{Name: fmt.Sprintf("d%d/f%03d.txt", i%7, i), Data: []byte(fmt.Sprintf("file %d\n", i))})
+	}
+	// in-process: lower the soft limit to what is open now plus 24
+	ents, err := os.ReadDir("/proc/self/fd")
+	if err != nil {
+		return ""
+	}
+	var old syscall.Rlimit
+	if err := syscall.Getrlimit(syscall.RLIMIT_NOFILE, &old); err != nil {
+		return ""
+	}
+	low := old
+	low.Cur = uint64(len(ents) + 24)
+	if low.Cur >= old.Cur {
+		return ""
+	}
+	if err := syscall.Setrlimit(syscall.RLIMIT_NOFILE, &low); err != nil {
+		return ""
+	}
+	werr := func() (err error) {
+		defer func() {
+			if p := recover(); p != nil {
+				err = fmt.Errorf("panic: %v", p)
+			}
+		}()
+		return txtar.Write(a, filepath.Join(dir, "in"))
+	}()
+	syscall.Setrlimit(syscall.RLIMIT_NOFILE, &old)
+	if werr != nil {
+		return fmt.Sprintf("Write of %d plain entries fails when the process may open only %d more files: %v", n, 24, werr)
+	}
+	got := takeSnap(filepath.Join(dir, "in"))
+	for _, f := range a.Files {
+		if got[f.Name] != "f:"+string(f.Data) {
+			return fmt.Sprintf("Write of %d plain entries returned nil, but %q is on disk as %q", n, f.Name, got[f.Name])
+		}
+	}
+	// through the binaries, under ulimit -n 32
+	arch := filepath.Join(dir, "tree.txtar")
+	if err := os.WriteFile(arch, txtar.Format(a), 0o666); err != nil {
+		kit.Harness("write archive: %v", err)
+	}
+	out := filepath.Join(dir, "x")
+	cmd := exec.Command("/bin/sh", "-c", `ulimit -n 32 && exec "$0" -C "$1" < "$2"`, filepath.Join(os.Getenv("VERIF_BIN"), "txtar-x"), out, arch)
+	if msg, err := cmd.CombinedOutput(); err != nil {
+		if _, serr := os.Stat("/bin/sh"); serr != nil {
+			return ""
+		}
+		return fmt.Sprintf("txtar-x of an archive of %d plain files fails under 'ulimit -n 32': %v: %s", n, err, strings.TrimSpace(string(msg)))
+	}
+	got = takeSnap(out)
+	for _, f := range a.Files {
+		if got[f.Name] != "f:"+string(f.Data) {
+			return fmt.Sprintf("txtar-x of %d plain files under 'ulimit -n 32' exits 0, but %q is on disk as %q", n, f.Name, got[f.Name])
+		}
+	}
+	return ""
 }
